@@ -30,7 +30,9 @@ ASSUMPTIONS = [
 
 def classes_of(plain):
     cl = set()
-    for name, desc, seq, width, eol in plain["records"]:
+    for name, desc, seq, width, eol, *_more in plain["records"]:
+        if _more:
+            cl.add("blank_line_after_record")
         n = len(seq)
         if eol == "\r\n":
             cl.add("crlf")
@@ -137,6 +139,15 @@ def body(case, rec):
         # .fai / .agp written beside the file
         fai2 = FastaIndex(path, buf)
         must(fai2.run_indexing, what="run_indexing")
+        # a second object that finds the cache written above must hold the same index
+        fai3 = FastaIndex(path, buf)
+        try:
+            fai3.auto_load()
+        except Exception:  # noqa: BLE001 -- a loud failure is acceptable here (e.g. a name the .fai columns cannot carry); C15 covers it
+            rec.count("cache_reload_raised")
+        else:
+            if [(n, *fa.info_tuple(i)) for n, i in fai3.index.items()] != [(n, *fa.info_tuple(i)) for n, i in idx.items()]:
+                raise Violation(f"index loaded from the cache {list(fai3.index)} differs from the one just built {list(idx)}")
         lines = path.with_name(path.name + ".fai").read_text().split("\n")
         if lines[-1] != "" or len(lines) - 1 != len(recs):
             raise Violation(f".fai has {len(lines) - 1} lines for {len(recs)} records")
